@@ -1,4 +1,4 @@
-package main
+package hx
 
 // splitmix64: every random choice of the harness derives from one state.
 type Rng struct{ s uint64 }
